@@ -233,6 +233,20 @@ Theorem C08_orig_named_mean_refuted :
   nam_orig Mean [(PList, l)] = Some (VNum 2 0) /\
   match pos_orig Mean [l] with Some (VNum c e) => ncmp c e 34 0 | _ => Lt end = Eq.
 Proof. exact orig_named_mean_refuted. Qed.
+Theorem C08_max_strings :
+  forall ss m, exists r,
+  max_str false m (map VStr ss) = VStr r /\ In r (m :: ss) /\ (forall x, In x (m :: ss) -> is_le (lcmp x r) = true).
+Proof. exact max_strings_spec. Qed.
+Theorem C08_min_strings :
+  forall ss m, exists r,
+  min_str m (map VStr ss) = VStr r /\ In r (m :: ss) /\ (forall x, In x (m :: ss) -> is_le (lcmp r x) = true).
+Proof. exact min_strings_spec. Qed.
+Theorem C08_min_max_dispatch :
+  forall c e s r,
+  b_max false (VNum c e :: r) = max_num false (c, e) r /\ b_max false (VStr s :: r) = max_str false s r /\
+  b_min (VNum c e :: r) = min_num (c, e) r /\ b_min (VStr s :: r) = min_str s r /\
+  b_max false (VNull :: r) = VNull /\ b_min (VNull :: r) = VNull /\ b_max false (VBool true :: r) = VNull /\ b_min (VBool true :: r) = VNull.
+Proof. exact min_max_dispatch. Qed.
 
 Example C08_nonvacuous :
   let l := VList [VNum 1 0; VNum 10 (-1); VNull; VList [VNum 2 0]; VNum 1 0] in
@@ -300,4 +314,7 @@ Print Assumptions C08_orig_sublist_trap_refuted.
 Print Assumptions C08_orig_max_min_null_refuted.
 Print Assumptions C08_orig_all_order_refuted.
 Print Assumptions C08_orig_named_mean_refuted.
+Print Assumptions C08_max_strings.
+Print Assumptions C08_min_strings.
+Print Assumptions C08_min_max_dispatch.
 Print Assumptions C08_nonvacuous.
